@@ -123,6 +123,41 @@ void drv_k2_sbdc(int tier, unsigned long seed, const char *extra) {
     }
   }
 }
+/* k2_dive2: mpn_divexact decides from the 2-adic shape of its operands (common low zero limbs stripped, trailing zero count of the divisor's lowest non-zero limb,
+   parity of the quotient for the approximate-quotient arm): every combination of {lowest non-zero divisor limb: 1, 2, odd, 2^62, 2^63, ...f000, all ones} x
+   {quotient odd, even, low limb zero, low two limbs zero} x {stripped zero limbs 0, 1, 2} in BOTH arms (bdiv below, mpn_invert + mpn_inv_divappr_q at or above
+   INV_DIV_QR_THRESHOLD in qn or dn) and in every (long q, short d) / (short q, long d) shape.  Also through mpz_divexact-style callers via the same kernel. */
+void drv_k2_dive2(int tier, unsigned long seed, const char *extra) {
+  shard_t sh = shard_parse(extra); long x = 0; int si, li, qi, zi;
+  static const mp_limb_t LOW[] = {1, 2, 0x6b8b4567327b23c7UL, (mp_limb_t)1 << 62, (mp_limb_t)1 << 63, ~(mp_limb_t)0xfff, ~(mp_limb_t)0, (mp_limb_t)3 << 62};
+  const mp_size_t T = INV_DIV_QR_THRESHOLD;
+  struct { mp_size_t dn, qn; int thorough; } shp[] = { {1, 3, 0}, {2, 2, 0}, {3, 5, 0}, {7, 7, 0}, {9, 30, 0}, {30, 9, 0}, {40, 70, 0}, {10, T + 3, 0}, {T + 3, 40, 0}, {7, T + 1, 1}, {6, T + 1, 1}, {T, 1, 1}, {T + 2, T + 2, 1}, {12, T + 200, 1} };
+  for (si = 0; si < (int)(sizeof shp / sizeof shp[0]); si++) {
+    if (shp[si].thorough && !tier) continue;
+    if (sh.pure && si > 3) continue;
+    for (li = 0; li < 8; li++) {
+      x++; if (!MINE(sh, x)) continue;
+      rec_reset("k2_dive2", x, seed);
+      for (qi = 0; qi < 4; qi++) for (zi = 0; zi < 3; zi++) {
+        mp_size_t dn0 = shp[si].dn, qn = shp[si].qn, dn = dn0 + zi, nn = dn + qn, qn1;
+        mp_ptr d = gb_get(1, dn, (qi + zi) & 1), qq = gb_get(4, qn, 1), pr = gb_get(3, nn, 1), n, q;
+        if (qi == 3 && qn < 3) continue;
+        if (dn0 > 1000 && qn > 1000 && (qi + zi + li) % 3) continue;
+        rnd_limbs(d, dn, (int)((x + qi) % NKINDS)); MPN_ZERO(d, zi); d[zi] = LOW[li];
+        if (!d[dn - 1]) d[dn - 1] = 1 + (rnd64() >> (1 + rnd_below(63)));
+        if (dn0 == 1) d[dn - 1] = LOW[li];
+        rnd_limbs(qq, qn, (int)((x / 2 + zi) % NKINDS)); if (!qq[qn - 1]) qq[qn - 1] = 1;
+        if (qi == 0) qq[0] |= 1; else if (qi == 1) { qq[0] &= ~(mp_limb_t)1; if (!qq[0]) qq[0] = 2; } else if (qi == 2) { if (qn > 1) qq[0] = 0; else qq[0] &= ~(mp_limb_t)1; } else { qq[0] = qq[1] = 0; }
+        if (!qq[qn - 1]) qq[qn - 1] = 2;
+        if (qn >= dn) mpn_mul(pr, qq, qn, d, dn); else mpn_mul(pr, d, dn, qq, qn);
+        if (!pr[nn - 1]) nn--;
+        n = gb_get(0, nn, qi & 1); MPN_COPY(n, pr, nn); qn1 = nn - dn + 1; q = gb_get(2, qn1, zi & 1);
+        fn_begin("mpn_divexact"); IN_ND(); gb_fill(q, qn1); mpn_divexact(q, n, nn, d, dn); fn_out_limbs("q", q, qn1); fn_end();
+      }
+    }
+  }
+}
+
 /* mpn_sb_divappr_q on its asserted boundary nn = dn (ASSERT (nn >= dn); tests/mpn/t-sb_divappr_q.c draws nn = dn too): the quotient area
    {qp, nn-dn} is empty.  The limb following it is poisoned and logged as "past": it must come back untouched.  (Kept apart from k2_sbdc
    because the unmodified library stores a quotient limb at qp[0] here; with an end-guarded quotient buffer the call faults.) */
